@@ -288,6 +288,11 @@ def e2e_cases():
         i_ok = eth(0x0800) + ip([10, 4, 4, 4], 1, h + 8, ihl, opts) + icmp(0, 0)
         for w in (1, 2):
             out.append({"w": w, "subnet": "", "ports": [], "frames": [hx(i_long), hx(i_hdr), hx(i_mid), hx(i_ok)]})
+    # a burst of distinct replies of different lengths: every record must be its own frame's
+    burst = []
+    for n in range(60):
+        burst.append(hx(eth(0x0800) + ip([10, 9, n, 1 + n], 6, 40 + (n * 7) % 23) + tcp(2000 + n, [0x12, 0x14, 0x11, 0x10][n % 4]) + pay[:(n * 7) % 23]))
+    out.append({"w": 0, "subnet": "", "ports": [], "frames": burst})
     arp = lambda mac, spa: [0, 1, 8, 0, 6, 4, 0, 2] + mac + spa + [2, 0, 0, 0, 0, 1, 192, 168, 0, 9]
     a_long = eth(0x0806) + arp([0, 17, 34, 51, 68, 85], [10, 1, 1, 1]) + [0] * 18
     a_hdr = eth(0x0806) + arp([0, 17, 34, 51, 68, 86], [10, 2, 2, 2])[:8]
@@ -353,6 +358,37 @@ def run_e2e_stage(ctx, cases, seen, tag="e2e"):
     return rows
 
 
+def run_closerace(ctx, seen, tag="closerace"):
+    """A reply read from the real afpacket.Source just before Close and processed just after it (the schedule of every scan
+    end and port-chunk boundary, made deterministic by the driver) must still be processed from intact bytes."""
+    from checks import c03 as c03mod
+    with open(os.path.join(ctx.work, "wiring.json"), "w") as f:
+        json.dump(E2E_WIRING, f)
+    for c in c03mod.run_e2e(ctx, ["-closerace", "-seed", ctx.seed], tag):
+        kind = E2E_KIND.get(c["cmd"], "tcp")
+        if c.get("setup"):
+            ctx.skipped.append("close-race stage (%s): %s" % (kind, c["setup"]))
+            continue
+        ctx.count("closerace/%s/%s" % (kind, "record" if c["record"] else "no-record"),
+                  hashlib.md5(("closerace" + kind + c["frame"]).encode()).digest(), nontrivial=True)
+        if c["record"] and c["same"] and not c.get("err") and not c.get("panic"):
+            continue
+        key = "crash:close:" + kind
+        if key in seen:
+            continue
+        seen[key] = 1
+        what = ("[real afpacket.Source + %s scan method] a well-formed reply is read from the packet source, the source is closed "
+                "(scan end / port-chunk boundary: ps.Close() does not wait for the receiver) and the frame is then processed: %s; "
+                "the bytes handed to ProcessPacketData no longer are the frame (they lie in the unmapped rx ring: in the real "
+                "process this is a fatal memory fault while processing a received frame)" % (
+                    kind, ("ProcessPacketData fails with %r" % (c.get("panic") or c.get("err"))) if (c.get("panic") or c.get("err"))
+                    else "no record / altered bytes"))
+        rp = ctx.write_replay(key.replace(":", "-"), {
+            "property": "C06", "what": what, "input": {"closerace": True, "kind": kind, "frames": [c["frame"]]},
+            "observed": c, "replay_cmd": "bin/check C06 --replay <this file>"})
+        ctx.findings.append({"key": key, "what": what, "replay": rp})
+
+
 def run(ctx):
     quick = ctx.tier == "quick"
     ctx.trusted += [
@@ -407,6 +443,7 @@ def run(ctx):
             report(ctx, r, v[0], v[1], seen)
     # the real packet source and receiver in front of the processors (needs the C03 e2e driver and a network namespace)
     run_e2e_stage(ctx, e2e_cases(), seen)
+    run_closerace(ctx, seen)
     for k, n in seen.items():
         if n > 1:
             ctx.info.append("%d more sequences show the violation class %s" % (n - 1, k))
@@ -446,6 +483,13 @@ def replay(ctx, path):
         print(json.dumps(r, indent=1))
         return 1
     i = r["input"]
+    if i.get("closerace"):
+        seen = {}
+        run_closerace(ctx, seen, "closerace-replay")
+        for fd in ctx.findings:
+            print("close-race replay: " + fd["what"])
+        print("replay: " + ("the property FAILS on this input" if ctx.findings else "the property holds on this input"))
+        return 1 if ctx.findings else 0
     if i.get("e2e"):
         seen = {}
         run_e2e_stage(ctx, [{"w": i["w"], "subnet": "", "ports": [], "frames": i["frames"]}], seen, "e2e-replay")
